@@ -633,3 +633,11 @@ package model
 //@             && (forall k int :: i <= k && k < len(alternatives) - 1 ==> result[k] == old(alternatives[k + 1]))
 //@   loop 1 invariant [none_before] forall k int :: 0 <= k && k < iter ==> alternatives[k].Id != alternative.Id
 //@   loop 1 invariant [untouched] unchanged(alternatives)
+
+//@ func (*AlternativesRanking).ReverseOrder
+//@   property C01 C11
+//@   assigns *r
+//@   ensures [reversed] *r == old(*r) && forall k int :: 0 <= k && k < len(*r) ==> (*r)[k] == old((*r)[len(*r) - 1 - k])
+//@   loop 1 invariant [ctx] *r == old(*r) && 0 <= i && j == len(*r) - 1 - i && i <= j + 1
+//@   loop 1 invariant [swapped] forall k int :: 0 <= k && k < len(*r) && (k < i || k > j) ==> (*r)[k] == old((*r)[len(*r) - 1 - k])
+//@   loop 1 invariant [middle] forall k int :: i <= k && k <= j ==> (*r)[k] == old((*r)[k])
